@@ -25,6 +25,22 @@ def build_driver(w):
     return exe, dt
 
 
+MATTR = "expansion::attr_fnmatch::verif_c04_attr"
+
+
+def setup_attr(w, name=""):
+    w.inject("yash-semantics/src/expansion/attr_fnmatch.rs", "c04_attr.rs")
+    return core.KaniSession(w, w.ws, pkg="yash-semantics", tag="sem")
+
+
+def attr_harnesses(tier):
+    fns = ["yash_semantics::expansion::attr_fnmatch::apply_escapes", "yash_semantics::expansion::attr_fnmatch::to_pattern_chars"]
+    return [Harness("c04_escapes_%d" % n, "%d expanded characters; value over all of Unicode, origin/quoted/quoting symbolic" % n, fns,
+                    "quoted and backslash-escaped characters reach the matcher as literal pattern characters; quoting characters "
+                    "and escaping backslashes are dropped", timeout=900, mod=MATTR)
+            for n in ((0, 1, 2, 3, 4) + ((5,) if tier == "thorough" else ()))]
+
+
 def run(tier, seed, only=None):
     out = core.Outcome(PID, tier, seed)
     out.engines = ["E2 z3-relang (z3 5.1 sequence/regex theory, python3-vt)", "regex-syntax 0.8 (HIR of the emitted regex)"]
@@ -46,7 +62,9 @@ def run(tier, seed, only=None):
         exe, bdt = build_driver(w)
         res_path = os.path.join(w.root, "e2.json")
         cmd = ["python3-vt", os.path.join(core.VERIF, "e2", "run_e2.py"), "--driver", exe, "--tier", tier, "--out", res_path]
-        rc, o, dt = core.run_cmd(cmd, core.VERIF, 3000 if tier == "quick" else 10000)
+        env = dict(core.ENV)
+        env["E2_GLUE_EVERY"] = "7" if tier == "quick" else "41"
+        rc, o, dt = core.run_cmd(cmd, core.VERIF, 3000 if tier == "quick" else 10000, env=env)
         core.log(o.strip()[-600:])
         if rc != 0 or not os.path.exists(res_path):
             raise core.Inconclusive("E2 runner failed: " + o[-400:])
@@ -104,6 +122,13 @@ def run(tier, seed, only=None):
             out.inconclusive.append("%d z3 queries returned unknown" % r["unknown"])
         out.obligations.append(ob)
         out.extra["violation_classes"] = {k: len(v) for k, v in byclass.items()}
+        # E1 part: which expanded characters are literal for the matcher
+        sess = setup_attr(w)
+        res = sess.run_all([h for h in attr_harnesses(tier) if not only or h.name in only], jobs=6)
+        out.engines.append("E1 kani 0.68 / CBMC 6.11 (attr_fnmatch)")
+        out.extra["kani_build_s"] = round(sess.build_s, 1)
+        out.extra["injected"] = w.injected
+        out.add_kani_results(res, sess, known, PID)
 
     return core.guarded(out, body, level="translation_validation",
                         trusted=["regex-syntax 0.8 parser/HIR", "z3 5.1 sequence theory", "reference POSIX reading in e2/relang.py"],
@@ -115,6 +140,8 @@ def run(tier, seed, only=None):
 
 def replay(path):
     """Re-run the stored cases natively against the current tree."""
+    if path.endswith(".rs"):
+        return core.generic_replay(PID, path, setup_attr)
     import sys
     sys.path.insert(0, os.path.join(core.VERIF, "e2"))
     import relang
